@@ -1,7 +1,11 @@
 (* C45 — property theorems only.  `h` is the hash function: ANY function from byte strings to numbers
    (the model reduces it mod 2^64); nothing is assumed about collisions or distribution.
-   answer h R P ops k  = what Lookup(k) returns on the model ring after New(R,P) and the history ops
-   sm_of ops           = the abstract member map (name -> latest value) after the history (Spec.v). *)
+     answer h R P ops k    what Lookup(k) returns on the model ring after New(R,P) and the history ops
+     fresh_answer h R P fm k   the same on a ring built by inserting the bindings fm, in that order
+     sm_of ops             the abstract member map (name -> latest value) after the history (Spec.v)
+     ring_after h R P ops  the model ring itself; live = its visible member map; owner_key = the member
+                           whose virtual node wins the probe loop (Proofs.v).
+   R >= 1 is New's precondition (it panics otherwise); probes may be anything. *)
 From Coq Require Import List NArith ZArith Arith Bool.
 From Verif.C45 Require Import Model Spec Proofs Link.
 Import ListNotations.
@@ -20,3 +24,63 @@ Theorem c45_history_independent : forall (h : list N -> N) (R P : nat), (1 <= R)
   forall k, answer h R P ops1 k = answer h R P ops2 k.
 Proof. exact history_independent. Qed.
 Print Assumptions c45_history_independent.
+
+(* ... in particular the same answer as a ring built fresh from the final member set, whatever order
+   its members are inserted in. *)
+Theorem c45_equals_fresh : forall (h : list N -> N) (R P : nat), (1 <= R)%nat ->
+  forall (ops : list (op val)) (fm : smap),
+  nodup_keys fm = true -> same_members fm (sm_of ops) ->
+  forall k, answer h R P ops k = fresh_answer h R P fm k.
+Proof. exact equals_fresh. Qed.
+Print Assumptions c45_equals_fresh.
+
+(* The ring's visible member map is exactly the abstract one (deferred removals are invisible). *)
+Theorem c45_members_refine : forall (h : list N -> N) (R P : nat), (1 <= R)%nat ->
+  forall (ops : list (op val)) (k : key), live val (ring_after h R P ops) k = sm_get (sm_of ops) k.
+Proof. exact live_after. Qed.
+Print Assumptions c45_members_refine.
+
+(* The value stored for a member is the latest: after Insert k v and any operations that do not touch k,
+   the ring holds v for k, and a Lookup won by k returns v. *)
+Theorem c45_value_is_latest : forall (h : list N -> N) (R P : nat), (1 <= R)%nat ->
+  forall (ops : list (op val)) (k : key) (v : val) (ops' : list (op val)), untouched k ops' ->
+  live val (ring_after h R P (ops ++ OInsert k v :: ops')) k = Some v.
+Proof. exact value_is_latest. Qed.
+Print Assumptions c45_value_is_latest.
+
+Theorem c45_owner_value_is_latest : forall (h : list N -> N) (R P : nat), (1 <= R)%nat ->
+  forall (ops : list (op val)) (k : key) (v : val) (ops' : list (op val)) (q : key), untouched k ops' ->
+  owner_key h val (ring_after h R P (ops ++ OInsert k v :: ops')) q = Some k ->
+  answer h R P (ops ++ OInsert k v :: ops') q = LSome v.
+Proof. exact owner_value_is_latest. Qed.
+Print Assumptions c45_owner_value_is_latest.
+
+(* The specification oracle accepts every run of the model (given fresh-ring member lists that are right). *)
+Theorem c45_model_meets_spec : forall (h : list N -> N) (R P : nat), (1 <= R)%nat ->
+  forall (ops : list (op val)) (os : list obs), fms_ok [] ops os = true ->
+  ok_trace ops (model_obs h R P (new val R P) ops os) = true.
+Proof. exact model_meets_spec. Qed.
+Print Assumptions c45_model_meets_spec.
+
+(* ---- the hypotheses are satisfiable by non-trivial states (a maximally colliding hash: the length) ---- *)
+Definition ex_hash (b : list N) : N := N.of_nat (length b).
+Definition ex_ops1 : list (op val) :=
+  [OInsert [1] [10]; OInsert [2] [20]; OLookup [7]; ORemove [1]; OInsert [3;3] [30]; OInsert [1] [11]; ORemove [2]]%N.
+Definition ex_ops2 : list (op val) := [OInsert [3;3] [30]; OInsert [1] [11]]%N.
+
+Example ex_same_members : forall k, sm_get (sm_of ex_ops1) k = sm_get (sm_of ex_ops2) k.
+Proof.
+  intro k. unfold ex_ops1, ex_ops2, sm_of. rewrite !sm_get_fold. simpl.
+  destruct (key_eqb k [2%N]) eqn:E2; destruct (key_eqb k [1%N]) eqn:E1; destruct (key_eqb k [3%N;3%N]) eqn:E3; auto;
+    apply Order.key_eqb_eq in E2; try apply Order.key_eqb_eq in E1; try apply Order.key_eqb_eq in E3; congruence.
+Qed.
+Example ex_answers :   (* [9;9;9] hashes past every virtual node and wraps around to member [1] *)
+  answer ex_hash 2 2 ex_ops1 [9;9;9]%N = LSome [11]%N /\ answer ex_hash 2 2 ex_ops2 [9;9;9]%N = LSome [11]%N
+  /\ answer ex_hash 2 2 ex_ops1 [9;9]%N = LSome [30]%N /\ answer ex_hash 2 2 ex_ops2 [9;9]%N = LSome [30]%N
+  /\ fresh_answer ex_hash 2 2 [([1], [11]); ([3;3], [30])]%N [9;9]%N = LSome [30]%N
+  /\ owner_key ex_hash val (ring_after ex_hash 2 2 ex_ops1) []%N = Some [1]%N.
+Proof. vm_compute. repeat split. Qed.
+Example ex_untouched : untouched [1]%N [ORemove [2]%N].
+Proof. intros o [<-|[]]. discriminate. Qed.
+Example ex_fms_ok : fms_ok [] ex_ops1 [BUnit; BUnit; BLook LNone LNone [([2], [20]); ([1], [10])]%N; BUnit; BUnit; BUnit; BUnit] = true.
+Proof. vm_compute. reflexivity. Qed.
